@@ -32,7 +32,7 @@ Sub == {1, 2}
 \* order of content hashes in the database's key space (arbitrary but fixed)
 HashLess(a, b) == a < b
 
-Init == /\ accepted = <<>> /\ handed = <<>> /\ mem = <<>> /\ db = <<>> /\ seq = 1
+Init == /\ accepted = <<>> /\ handed = <<>> /\ mem = <<>> /\ db = <<>> /\ seq = 0
         /\ pcS = [s \in Sub |-> [st |-> "idle"]] /\ pcN = [st |-> "idle"] /\ up = TRUE /\ ops = 0 /\ crashes = 0
 
 Free == pcN.st = "idle" /\ \A s \in Sub : pcS[s].st = "idle"
@@ -84,19 +84,30 @@ Crash ==
     \* the model takes the view of the caller: not acknowledged = not accepted (it may still come out)
     /\ UNCHANGED <<accepted, handed, db, seq, ops>>
 
+\* an orderly stop at rest: nothing is written, the in-memory queue is gone
+Stop ==
+    /\ up /\ Free
+    /\ up' = FALSE /\ mem' = <<>>
+    /\ UNCHANGED <<accepted, handed, db, seq, pcS, pcN, ops, crashes>>
+
 RECURSIVE SortByHash(_)
 SortByHash(s) == IF Len(s) <= 1 THEN s
                  ELSE LET m == CHOOSE i \in 1 .. Len(s) : \A j \in 1 .. Len(s) : ~HashLess(s[j].c, s[i].c)
                       IN <<s[m]>> \o SortByHash(SubSeq(s, 1, m - 1) \o SubSeq(s, m + 1, Len(s)))
 
+\* the record counter is volatile: a reload continues after the highest record number still in the database
+\* (and starts again at 0 when the database is empty)
+MaxKey(s) == IF s = <<>> THEN -1 ELSE LET ks == {s[i].key : i \in 1 .. Len(s)} IN CHOOSE m \in ks : \A k \in ks : k <= m
+
 Load ==
     /\ ~up /\ up' = TRUE
     /\ mem' = IF KeyBySeq THEN db ELSE SortByHash(db)      \* iteration in database key order
-    /\ UNCHANGED <<accepted, handed, db, seq, pcS, pcN, ops, crashes>>
+    /\ seq' = MaxKey(db) + 1
+    /\ UNCHANGED <<accepted, handed, db, pcS, pcN, ops, crashes>>
 
 Next == \/ \E s \in Sub, c \in Contents : SubmitPut(s, c)
         \/ \E s \in Sub : SubmitAck(s)
-        \/ NextPop \/ NextDel \/ Crash \/ Load
+        \/ NextPop \/ NextDel \/ Crash \/ Stop \/ Load
 Spec == Init /\ [][Next]_vars
 
 \* ---- C10 ---------------------------------------------------------------------------
@@ -116,4 +127,6 @@ MemC == [i \in 1 .. Len(mem) |-> mem[i].c]
 Durable == Quiet => /\ Embed(SubSeq(accepted, Len(handed) + 1 - Cardinality({}), Len(accepted)), MemC) \/ crashes > 0
                     /\ (crashes > 0 => Embed(SelectSeq(accepted, LAMBDA c : TRUE), handed \o MemC))
 BoundRespected == Len(mem) <= Bound
+\* record numbers of the records in the database are pairwise different (no record overwrites another)
+KeysUnique == KeyBySeq => \A i, j \in 1 .. Len(db) : i # j => db[i].key # db[j].key
 ==========================================================================
